@@ -23,6 +23,7 @@ TraceCStart == /\ IsEvent("CStart") /\ ev.r = "ok" /\ ev.L.ok /\ ev.handles <= C
                /\ Start(LayOf(ev.L)) /\ live' = TRUE
 TraceCOpen ==
    /\ IsEvent("COpen") /\ live /\ ev.r = "ok" /\ ev.i \in Ents
+   /\ ev.pwkind # "wrong"                                     \* a wrong password never opens an entry, whatever other handles did before
    \* (re-opening on a handle releases its previous entry first)
    /\ ent' = [ent EXCEPT ![ev.h] = ev.i] /\ off' = [off EXCEPT ![ev.h] = 0]
    /\ rpos' = [rpos EXCEPT ![ev.h] = ev.dstart]               \* where the handle's reader really is
@@ -39,11 +40,15 @@ TraceCRead ==
 \* an open that failed because the handle's own reader failed (injected): the handle has no entry; nothing shared may change
 TraceCOpenFault == /\ IsEvent("COpenFault") /\ live /\ ev.r # "panic" /\ ent' = [ent EXCEPT ![ev.h] = 0]
                    /\ UNCHANGED <<lay, off, rpos, cache, ok, half, live>>
+\* what an open entry reports does not change while other handles open, fail to open, or read
+TraceCStat == /\ IsEvent("CStat") /\ live /\ ev.r = "ok" /\ ent[ev.h] # 0
+              /\ Check(ev.dstart = lay[ent[ev.h]].ds /\ ev.usize = lay[ent[ev.h]].len)
+              /\ UNCHANGED <<lay, ent, off, rpos, cache, ok, half, live>>
 TraceCClose == IsEvent("CClose") /\ live /\ ent' = [ent EXCEPT ![ev.h] = 0] /\ UNCHANGED <<lay, off, rpos, cache, ok, half, live>>
 
 TraceInit == /\ l = 1 /\ live = FALSE /\ lay = <<>> /\ ent = [h \in Handles |-> 0] /\ off = [h \in Handles |-> 0]
              /\ rpos = [h \in Handles |-> 0] /\ cache = <<>> /\ ok = [h \in Handles |-> TRUE] /\ half = [h \in Handles |-> 0]
-TraceNext == TraceReset \/ TraceCStart \/ TraceCOpen \/ TraceCOpenFault \/ TraceCRead \/ TraceCClose
+TraceNext == TraceReset \/ TraceCStart \/ TraceCOpen \/ TraceCOpenFault \/ TraceCStat \/ TraceCRead \/ TraceCClose
 TraceSpec == TraceInit /\ [][TraceNext]_tvars
 \* the model's invariants on the real run: the cache only ever holds the value the bytes determine
 TraceInv == live => (CacheIdempotent /\ PerHandleView)
